@@ -1,16 +1,20 @@
 """GenClient (C03): the facts about Pyro5/client.py that the ClientProto proofs rely on.
 
-  * the sequence mask in `self._pyroSeq = (self._pyroSeq + 1) & <mask>` (in _pyroInvoke)
-  * the try-statement around send / recv_stub in _pyroInvoke has a handler for errors.CommunicationError
-    whose body calls self._pyroRelease() and re-raises                       -> release_on_comm_error
-  * self.__pyroCheckSequence(msg.seq) is called after recv_stub and before the reply data is used or
-    anything is returned, and __pyroCheckSequence raises a ProtocolError when seq != self._pyroSeq
-                                                                             -> seqcheck_before_use
-  * oneway: `if flags & protocol.FLAGS_ONEWAY: return None` sits before the recv_stub call
-  * _RemoteMethod.__call__: `for attempt in range(self.__max_retries + 1)`, one handler, the caught
-    exception classes, `if attempt >= self.__max_retries: raise`
-A shape that is not recognised fails closed (GenError); a recognised shape with a defence missing is
-reported as `false`, which breaks the computed lemmas in Proofs/ClientProto.v.
+  seq_mask                 the mask in the increment of Proxy._pyroSeq
+  release_on_comm_error    _pyroInvoke drops the connection when send / receive / reply validation raises a CommunicationError
+  seqcheck_before_use      the reply's sequence number is compared with Proxy._pyroSeq before the reply is used
+  retry_on_*               exception classes _RemoteMethod.__call__ retries on (and: N retries = N+1 attempts, last error re-raised)
+  batch_calls_cleared      BatchProxy drops its collected calls after every batch invocation, oneway or not
+
+Two readers.  `_client_ast` reads the facts off the syntax tree of the original code shape (and fails with GenError on any
+other shape).  `_client_probed` observes the same facts on the client module of the tree under test, driven with recording
+stubs (fake connection, fake send function, fake proxy; no network): increment/mask around the wrap, oneway returns without
+reading, release after closed/timeout/protocol errors on receive and on send, refusal + release for out-of-sequence result,
+exception and stream replies (8 offsets x 4 sequence positions), attempts made by the retry loop per error class for
+max_retries 0..3, BatchProxy call list after oneway / normal / adapter invocations.  The probe is used when the syntax reader
+does not recognise the code (refactoring into helpers, renamed locals, extra logging, hardening wrappers) or reads a defence
+as missing; it is insensitive to message texts, log calls and code layout.  A defence that is really gone reads false in both.
+If neither reader succeeds the extractor fails closed.  The generated text does not depend on which reader was used.
 """
 import ast
 from tools.gen.gen import generator, parse, find_func, need, GenError, HEADER, cN, cbool, ast_sha, int_expr
@@ -48,8 +52,8 @@ def _ends_with_bare_raise(body):
     return bool(body) and isinstance(body[-1], ast.Raise) and body[-1].exc is None
 
 
-@generator("GenClient", "Pyro5/client.py")
-def gen_client(tree):
+def _client_ast(tree):
+    """first reader: the facts as they can be read off the syntax tree of the original code shape"""
     mod, _ = parse(tree, "Pyro5/client.py")
     inv = find_func(mod, "_pyroInvoke", "Proxy")
     # ---- sequence increment and mask
@@ -239,18 +243,240 @@ def gen_client(tree):
              "BatchProxy.%s neither invokes the batch nor delegates" % fname)
         bp_facts[fname] = block_cleared(bf.body, fname, 0)
     batch_cleared = all(bp_facts.values())
+    return {"mask": mask, "release": release, "seqcheck": seqcheck, "retry_closed": r_closed, "retry_timeout": r_timeout,
+            "retry_protocol": r_proto, "batch_cleared": batch_cleared}
+
+
+# ---------------------------------------------------------------------------------------------------------------
+# second reader: the same facts observed on the client module of the tree under test, driven with recording stubs
+# (no network, no daemon).  Used when the syntax reader does not recognise the shape of the code (refactorings,
+# helper methods, renamed locals, extra logging, hardening wrappers) or reads a defence as missing.
+def _client_probed(tree):
+    from tools.gen.gen import tree_module
+    client = tree_module(tree, "Pyro5.client")
+    protocol = tree_module(tree, "Pyro5.protocol")
+    errors = tree_module(tree, "Pyro5.errors")
+    serializers = tree_module(tree, "Pyro5.serializers")
+    config = tree_module(tree, "Pyro5").config
+    import logging
+    ser = serializers.serializers[config.SERIALIZER]
+
+    class Sock(object):
+        def getsockname(self):
+            return ("127.0.0.1", 1)
+
+    class Conn(object):
+        """recording stand-in for socketutil.SocketConnection"""
+        def __init__(self, reply=None, recv_exc=None, send_exc=None):
+            self.sent, self.closed, self.rx, self.recv_calls = [], False, bytearray(), 0
+            self.reply, self.recv_exc, self.send_exc = reply, recv_exc, send_exc
+            self.objectId, self.sock, self.timeout = "obj", Sock(), None
+
+        def send(self, data):
+            if self.send_exc is not None:
+                raise self.send_exc
+            data = bytes(data)
+            self.sent.append(data)
+            if self.reply is not None:
+                seq = int.from_bytes(data[10:12], "big")
+                delta, flags, value, anns = self.reply
+                m = protocol.SendingMessage(protocol.MSG_RESULT, flags, (seq + delta) & 0xffff, ser.serializer_id, ser.dumps(value), annotations=anns)
+                self.rx += m.data
+
+        def recv(self, size):
+            self.recv_calls += 1
+            if self.recv_exc is not None:
+                raise self.recv_exc
+            if len(self.rx) < size:
+                raise errors.ConnectionClosedError("probe: nothing more to read")
+            out = bytes(self.rx[:size])
+            del self.rx[:size]
+            return out
+
+        def close(self):
+            self.closed = True
+
+        def family(self):
+            return "IPv4"
+
+    def proxy(conn, seq):
+        p = client.Proxy("PYRO:obj@localhost:1")
+        p._pyroMethods, p._pyroOneway, p._pyroAttrs = {"m", "ow"}, {"ow"}, set()
+        p._pyroConnection, p._pyroSeq = conn, seq
+        return p
+
+    def quiet(fn):
+        prev = logging.root.manager.disable
+        logging.disable(logging.CRITICAL)
+        try:
+            return fn()
+        finally:
+            logging.disable(prev)
+
+    def probe():
+        facts = {}
+        # -- mask and increment; the request carries the incremented number; oneway returns without reading
+        c = Conn()
+        p = proxy(c, (1 << 40) - 2)
+        try:
+            p._pyroInvoke("ow", (1,), {})
+        except Exception:
+            pass
+        mask = p._pyroSeq
+        need(isinstance(mask, int) and 0 < mask < (1 << 40) - 1, "probe: sequence number is not masked (%r)" % (mask,))
+        p._pyroConnection = None
+        for s0 in (5, mask - 1, mask):
+            c = Conn()
+            p = proxy(c, s0)
+            r = p._pyroInvoke("ow", (1,), {})
+            need(p._pyroSeq == (s0 + 1) & mask, "probe: sequence %d -> %r is not increment-and-mask" % (s0, p._pyroSeq))
+            need(r is None and c.recv_calls == 0 and len(c.sent) == 1, "probe: a oneway call does not return None right after sending")
+            need(int.from_bytes(c.sent[0][10:12], "big") == p._pyroSeq & 0xffff, "probe: the request does not carry the proxy's sequence number")
+            need(p._pyroConnection is c, "probe: a oneway call dropped its connection")
+            p._pyroConnection = None
+        facts["mask"] = mask
+        # -- a well-formed own reply is returned / raised
+        for s0 in (5, mask):
+            c = Conn(reply=(0, 0, ["v", 7], None))
+            p = proxy(c, s0)
+            need(list(p._pyroInvoke("m", (1,), {})) == ["v", 7] and p._pyroConnection is c, "probe: an in-sequence reply is not returned")
+            p._pyroConnection = None
+        # -- release on communication errors (receive side: closed, timeout, protocol; send side: closed)
+        release = True
+        for cls, kw in ((errors.ConnectionClosedError, "recv_exc"), (errors.TimeoutError, "recv_exc"), (errors.ProtocolError, "recv_exc"),
+                        (errors.ConnectionClosedError, "send_exc")):
+            c = Conn(**{kw: cls("probe")})
+            p = proxy(c, 5)
+            try:
+                p._pyroInvoke("m", (1,), {})
+                raise GenError("probe: a failing transport did not make _pyroInvoke raise")
+            except errors.CommunicationError:
+                pass
+            release = release and p._pyroConnection is None and c.closed
+            p._pyroConnection = None
+        facts["release"] = release
+        # -- sequence check before the reply is used: result, exception and stream replies, around the wrap
+        seqcheck = True
+        replies = [(0, ["v", 7], None), (protocol.FLAGS_EXCEPTION, ValueError("probe"), None),
+                   (protocol.FLAGS_ITEMSTREAMRESULT | protocol.FLAGS_EXCEPTION, errors.ProtocolError("probe"), {"STRM": b"abc"})]
+        for s0 in (5, mask, mask - 1, 300):
+            for delta in (1, -1, 2, -2, 255, 256, -256, 32768):
+                for flags, value, anns in replies:
+                    c = Conn(reply=(delta, flags, value, anns))
+                    p = proxy(c, s0)
+                    try:
+                        r = p._pyroInvoke("m", (1,), {})
+                        seqcheck = False
+                        if hasattr(r, "proxy"):
+                            r.proxy = None
+                    except errors.CommunicationError:
+                        if p._pyroConnection is not None:
+                            seqcheck = False       # refused, but the out-of-step connection is kept
+                    except Exception:
+                        seqcheck = False           # the foreign reply's exception reached the caller
+                    p._pyroConnection = None
+        facts["seqcheck"] = seqcheck
+        # -- retry loop
+        def attempts(cls, n):
+            calls = []
+
+            def send(name, args, kwargs):
+                calls.append(name)
+                raise cls("probe")
+            try:
+                client._RemoteMethod(send, "m", n)(1)
+            except cls:
+                return len(calls)
+            raise GenError("probe: _RemoteMethod returned although every attempt failed")
+        for key, cls in (("retry_closed", errors.ConnectionClosedError), ("retry_timeout", errors.TimeoutError),
+                         ("retry_protocol", errors.ProtocolError)):
+            counts = [attempts(cls, n) for n in (0, 1, 2, 3)]
+            if counts == [1, 2, 3, 4]:
+                facts[key] = True
+            elif counts == [1, 1, 1, 1]:
+                facts[key] = False
+            else:
+                raise GenError("probe: retry loop makes %r attempts for max_retries 0..3 on %s" % (counts, cls.__name__))
+        seen = []
+
+        def flaky(name, args, kwargs):
+            seen.append(1)
+            if len(seen) < 2:
+                raise errors.TimeoutError("probe")
+            return "ok"
+        if facts["retry_timeout"]:
+            need(client._RemoteMethod(flaky, "m", 1)() == "ok" and len(seen) == 2, "probe: a successful retry is not returned")
+        # -- BatchProxy drops its collected calls after every kind of invocation
+        class P(object):
+            def __init__(self):
+                self.batches = []
+
+            def _pyroClaimOwnership(self):
+                pass
+
+            def _pyroInvokeBatch(self, calls, oneway=False):
+                self.batches.append(len(calls))
+                return [None] * len(calls)
+        cleared = True
+        for how in ("oneway", "normal", "adapter"):
+            px = P()
+            b = client.BatchProxy(px)
+            b.foo(1)
+            b.bar(2)
+            r = b(oneway=True) if how == "oneway" else (b() if how == "normal" else b._pyroInvoke("x", None, None))
+            if r is not None:
+                list(r)
+            b.baz(3)
+            r = b()
+            if r is not None:
+                list(r)
+            cleared = cleared and px.batches == [2, 1] and len(getattr(b, "_BatchProxy__calls", [0])) == 0
+        facts["batch_cleared"] = cleared
+        return facts
+    try:
+        return quiet(probe)
+    except GenError:
+        raise
+    except Exception as x:
+        raise GenError("probe of Pyro5.client failed: %s: %s" % (type(x).__name__, x))
+
+
+DEFENCES = ("release", "seqcheck", "batch_cleared")
+
+
+@generator("GenClient", "Pyro5/client.py")
+def gen_client(tree):
+    ast_facts = ast_err = probe_facts = probe_err = None
+    try:
+        ast_facts = _client_ast(tree)
+    except GenError as x:
+        ast_err = str(x)
+    if ast_facts is None or not all(ast_facts[k] for k in DEFENCES):
+        # unrecognised shape, or a defence that cannot be seen where it used to be: ask the code itself
+        try:
+            probe_facts = _client_probed(tree)
+        except GenError as x:
+            probe_err = str(x)
+    if probe_facts is not None:
+        need(ast_facts is None or ast_facts["mask"] == probe_facts["mask"], "syntax reader and probe disagree on the sequence mask")
+        facts, mode = probe_facts, "probed"
+    elif ast_facts is not None:
+        facts, mode = ast_facts, "ast"
+    else:
+        raise GenError("%s; %s" % (ast_err, probe_err))
     out = HEADER % "Pyro5/client.py"
-    out += "(* self._pyroSeq = (self._pyroSeq + 1) & 0x%x *)\n" % mask
-    out += "Definition seq_mask : N := %s.\n" % cN(mask)
-    out += "(* `except (%s): self._pyroRelease(); raise` around send/recv_stub in _pyroInvoke *)\n" % ", ".join(_exc_names(tr.handlers[0].type)) if tr.handlers else ""
-    out += "Definition release_on_comm_error : bool := %s.\n" % cbool(release)
-    out += "(* self.__pyroCheckSequence(msg.seq) directly after recv_stub, before the reply is used *)\n"
-    out += "Definition seqcheck_before_use : bool := %s.\n" % cbool(seqcheck)
-    out += "(* _RemoteMethod.__call__ retries on: %s *)\n" % ", ".join(rnames)
-    out += "Definition retry_on_closed : bool := %s.\n" % cbool(r_closed)
-    out += "Definition retry_on_timeout : bool := %s.\n" % cbool(r_timeout)
-    out += "Definition retry_on_protocol : bool := %s.\n" % cbool(r_proto)
-    out += "(* BatchProxy.__call__ / BatchProxy._pyroInvoke: `self.__calls = []` follows every batch invocation (oneway or not) *)\n"
-    out += "Definition batch_calls_cleared : bool := %s.\n" % cbool(batch_cleared)
-    return out, {"batch_cleared": bp_facts, "mask": mask, "release": release, "seqcheck": seqcheck, "retry_classes": rnames,
-                 "ast_sha": {"_pyroInvoke": ast_sha(inv), "_RemoteMethod.__call__": ast_sha(call), "__pyroCheckSequence": ast_sha(cs)}}
+    out += "(* the mask in the increment of Proxy._pyroSeq *)\n"
+    out += "Definition seq_mask : N := %s.\n" % cN(facts["mask"])
+    out += "(* _pyroInvoke drops the connection when send / receive / reply validation raises a CommunicationError *)\n"
+    out += "Definition release_on_comm_error : bool := %s.\n" % cbool(facts["release"])
+    out += "(* the reply's sequence number is compared with Proxy._pyroSeq before the reply is used *)\n"
+    out += "Definition seqcheck_before_use : bool := %s.\n" % cbool(facts["seqcheck"])
+    out += "(* exception classes _RemoteMethod.__call__ retries on *)\n"
+    out += "Definition retry_on_closed : bool := %s.\n" % cbool(facts["retry_closed"])
+    out += "Definition retry_on_timeout : bool := %s.\n" % cbool(facts["retry_timeout"])
+    out += "Definition retry_on_protocol : bool := %s.\n" % cbool(facts["retry_protocol"])
+    out += "(* BatchProxy drops its collected calls after every batch invocation (oneway or not) *)\n"
+    out += "Definition batch_calls_cleared : bool := %s.\n" % cbool(facts["batch_cleared"])
+    return out, {"mode": mode, "ast_error": ast_err, "probe_error": probe_err, "ast_facts": ast_facts, "mask": facts["mask"],
+                 "release": facts["release"], "seqcheck": facts["seqcheck"], "batch_cleared": facts["batch_cleared"],
+                 "retry": [facts["retry_closed"], facts["retry_timeout"], facts["retry_protocol"]]}
